@@ -425,6 +425,24 @@ def r6_validate_first(chk, cls):
                  f"`{short(late[0].ast, 60)}` can run after the atom was already appended: add_atom with a mis-shaped coordinate raises and leaves one atom without a coordinate row")
     else:
         chk.ok("C05.R6", key, f.where(), f"{len(raises)} validation raise(s), all before the first mutation")
+    # what is validated: one coordinate is a vector of shape (3,) - that is what `np.append(self._coords, [coord], axis=0)` needs; a test
+    # of the size alone lets (1, 3) / (3, 1) through, the atom is registered and the append raises afterwards
+    guards = [g for g in walk_no_nested(f.node) if isinstance(g, ast.If) and any(isinstance(x, ast.Raise) for x in g.body) and ("shape" in norm(g.test) or "size" in norm(g.test) or "len(" in norm(g.test))]
+    def _pins_shape(t):
+        return any(isinstance(c_, ast.Compare) and ".shape" in norm(c_) and any(norm(x) in ("(3,)", "3,") or (isinstance(x, ast.Tuple) and len(x.elts) == 1 and norm(x.elts[0]) == "3")
+                                                                                 for x in [c_.left] + c_.comparators) for c_ in ast.walk(t))
+
+    pins = [g for g in guards if _pins_shape(g.test)]
+    if not pins:
+        # the same test with the raise behind it (`if shape == (3,): return` ... `raise`): read from the conditions under which a raise runs
+        from ..canon import path_conditions as _pcs
+
+        for r_ in [x for x in walk_no_nested(f.node) if isinstance(x, ast.Raise)]:
+            if any(_pins_shape(t) for t in _pcs(f.node, r_)):
+                pins.append(r_)
+    chk.decide(bool(pins), "C05.R6", f"{f.key}:coordinate-shape-is-pinned", f.where(guards[0] if guards else None), "a coordinate is accepted only with shape (3,)",
+               f"add_atom validates the coordinate by `{short(guards[0].test, 40) if guards else 'nothing'}`, which does not pin its shape to (3,): a (1,3) or (3,1) array passes, the atom is "
+               "registered and the coordinate append raises - one atom more than coordinate rows")
     # every override above it: its own container may only grow after the (fallible) super().add_atom returned
     for owner, cont in ARRAY_OWNERS.items():
         ci = cls[owner]
@@ -440,8 +458,34 @@ def r6_validate_first(chk, cls):
                    f"`{short(early[0].ast, 60) if early else ''}` runs before super().add_atom, which rejects mis-shaped coordinates: after the ValueError {cont} has one entry more than there are atoms")
 
 
+def r8_adoption(chk, cls):
+    """append_bond / append_bonds adopt an endpoint exactly when it is not in the atom list: `a.parent is not self` is no substitute - a
+    deleted atom keeps its parent pointer (it would stay outside the molecule with a bond to it), and a view re-parents what it shows"""
+    prog = chk.prog
+    conn = cls["Connectivity"]
+    n = 0
+    for nm in ("append_bond", "append_bonds", "extend_bonds"):
+        f = prog.method(conn, nm)
+        if f is None:
+            continue
+        adopts = [c for c in walk_no_nested(f.node) if isinstance(c, ast.Call) and norm(c.func) == "self.append_atom" and c.args]
+        for c in adopts:
+            n += 1
+            from ..canon import path_conditions
+            from ..util import innermost_stmt
+
+            a = norm(c.args[0])
+            pcs = [norm(t) for t in path_conditions(f.node, innermost_stmt(f.node, c))]
+            ok = any(t in (f"{a} not in self.atoms", f"{a} not in self._atoms") for t in pcs)
+            chk.decide(ok, "C05.R8", f"{f.key}:adopts-iff-not-in-atom-list:{a}", f.where(c), f"append_atom({a}) under `{a} not in self.atoms`",
+                       f"{nm} adopts `{a}` under {pcs or 'no condition'} instead of `{a} not in self.atoms`: an endpoint that was deleted from this molecule (its parent pointer survives) is not "
+                       "taken back - the bond joins an atom outside the molecule")
+    chk.require(n >= 2, "Connectivity.append_bond(s): adoption sites not found")
+
+
 def r8_membership(chk, cls):
     """get_atom(Atom) must test membership in the atom list itself (a deleted atom keeps its parent pointer)"""
+    chk.call(r8_adoption, chk, cls)
     prog = chk.prog
     ga = prog.method(cls["Promolecule"], "get_atom")
     arms = [(n, c) for n, c in _type_cases(prog, ga) if n == "Atom"]
